@@ -47,7 +47,7 @@ def build_driver(name, fine=False):
     return rc == 0, exe, out
 
 def build_replayer():
-    return C.ocaml_build("conc_run", "theories/Extract/ExtractConc.v", "conc_model", "conc_run.ml", zconv=False)
+    return C.ocaml_build("conc_run", "theories/Extract/ExtractConc.v", "conc_model", "conc_run.ml", zconv=True)
 
 # ------------------------------------------------------------------ scenarios
 
@@ -211,7 +211,7 @@ def op_histogram(scns):
     for s in scns:
         for th in s.threads:
             for o in th:
-                k = re.match(r'[a-zA-Z]+', o).group(0)
+                k = re.match(r'[a-zA-Z/]+', o).group(0)
                 h[k] = h.get(k, 0) + 1
     return h
 
